@@ -26,7 +26,7 @@ func runC05(ctx *Ctx, c c05Case) {
 	consumed := map[string]bool{}
 	for _, n := range c.Dag.Nodes {
 		for _, u := range n.Ins {
-			consumed[u] = true
+			consumed[baseName(u)] = true
 		}
 	}
 	for _, n := range c.Dag.Nodes {
@@ -45,6 +45,12 @@ func runC05(ctx *Ctx, c c05Case) {
 	}
 	ctx.Res.Eval(fmt.Sprintf("%v", c), total >= 2, c)
 	ctx.Res.Count(fmt.Sprintf("bufsize=%d", c.Buf))
+	for _, n := range c.Dag.Nodes {
+		if n.Aux {
+			ctx.Res.Count("process-with-two-out-ports")
+			break
+		}
+	}
 	if c.Dag.balanced() {
 		ctx.Res.Count("balanced")
 	} else {
@@ -244,7 +250,7 @@ func netEncode(g Dag) (names []string, ins []string, src []string, ok bool) {
 		case "proc":
 			in := []int{}
 			for _, u := range n.Ins {
-				in = append(in, idx[u])
+				in = append(in, idx[baseName(u)])
 			}
 			if n.PIn == "@" {
 				add(n.Name+"@feeder", nil, len(n.PVals))
@@ -365,6 +371,7 @@ func opAcceptance(ctx *Ctx, c c05Case, rr *RunRes, names, ins, src []string) {
 		m := map[string]int{}
 		seen := map[int]bool{}
 		for i, u := range n.Ins {
+			u = baseName(u)
 			m[fmt.Sprintf("in%d", i)] = idx[u]
 			if seen[idx[u]] {
 				ctx.Res.Count("channel-ops=multi-edge(not in the model)")
